@@ -473,7 +473,7 @@ class MapGen:
             return fmt_val(v)
         for _ in range(4 + r.below(12)):
             h = r.choice(['h1', 'h2'])
-            op = r.weighted([('set', 6), ('get', 5), ('in', 3), ('count', 2), ('delete', 3), ('copy', 2), ('fromarray', 1), ('keys', 2), ('alias', 2)])
+            op = r.weighted([('set', 6), ('get', 5), ('in', 3), ('count', 2), ('delete', 3), ('copy', 2), ('fromarray', 1), ('fromarray_dup', 2), ('keys', 2), ('alias', 2)])
             self.note(op)
             D = maps[h]
             if op == 'set':
@@ -512,6 +512,21 @@ class MapGen:
                     nd[key_of(kv)] = val
                 maps[h] = nd
                 stmts.append('%s = createHashMapFromArray [%s]' % (h, ', '.join('[%s, %d]' % (kt, val) for (kt, kv), val in pairs)))
+            elif op == 'fromarray_dup':
+                # the same key (or an equal one of another spelling) more than once: the last pair wins
+                k1 = self.key()
+                same = [k for k in ALPHABET if key_of(k[1]) == key_of(k1[1])]
+                k2 = r.choice(same)
+                pairs = [(k1, r.below(100)), (self.key(), r.below(100)), (k2, r.below(100))]
+                if r.chance(1, 2):
+                    pairs.append((r.choice(same), r.below(100)))
+                nd = {}
+                for (kt, kv), val in pairs:
+                    nd[key_of(kv)] = val
+                maps[h] = nd
+                stmts.append('%s = createHashMapFromArray [%s]' % (h, ', '.join('[%s, %d]' % (kt, val) for (kt, kv), val in pairs)))
+                exp.append('[%d,%d]' % (len(nd), nd[key_of(k1[1])]))
+                stmts.append('tr pushBack [count %s, %s get %s]' % (h, h, k1[0]))
             elif op == 'alias':
                 # a key array mutated after insertion must neither lose nor change the entry
                 val = r.below(100)
@@ -520,6 +535,51 @@ class MapGen:
                 exp.append('[%d,%s,%d]' % (val, 'nil' if key_of([1, 2]) not in D else str(D[key_of([1, 2])]), len(D)))
                 stmts.append('tr pushBack [%s get [1], %s get [1,2], count %s]' % (h, h, h))
         return '; '.join(stmts), '[' + ','.join(exp) + ']'
+
+
+class MapEqGen:
+    """pairs of hash maps built by different insertion histories: isEqualTo must be the equality of the
+    finite maps they denote (same keys by equivalence class, equal values), in both directions, also
+    when the maps sit inside arrays; equal maps must hash equally"""
+    def __init__(self, rng):
+        self.r = rng
+        self.stats = {}
+
+    def note(self, k):
+        self.stats[k] = self.stats.get(k, 0) + 1
+
+    def case(self):
+        r = self.r
+        keys = [r.choice(ALPHABET) for _ in range(1 + r.below(4))]
+        base = [(k, r.below(5)) for k in keys]
+        kind = r.weighted([('same', 3), ('reordered', 3), ('subset', 3), ('superset', 2), ('value', 2), ('respelled', 2), ('empty', 1)])
+        self.note(kind)
+        a = list(base)
+        b = list(base)
+        if kind == 'reordered':
+            b = list(reversed(base))
+        elif kind == 'subset':
+            b = base[:-1]
+        elif kind == 'superset':
+            b = base + [(r.choice(ALPHABET), r.below(5))]
+        elif kind == 'value':
+            b = base[:-1] + [(base[-1][0], base[-1][1] + 1)]
+        elif kind == 'respelled':
+            b = [(r.choice([k for k in ALPHABET if key_of(k[1]) == key_of(kk[1])]), v) for kk, v in base]
+        elif kind == 'empty':
+            b = []
+
+        def build(name, pairs):
+            return '%s = createHashMap; ' % name + ''.join('%s set [%s, %d]; ' % (name, kt, v) for (kt, kv), v in pairs)
+
+        def den(pairs):
+            d = {}
+            for (kt, kv), v in pairs:
+                d[key_of(kv)] = v
+            return d
+        equal = den(a) == den(b)
+        text = build('g1', a) + build('g2', b)
+        return text, equal
 
 
 def fmt_val(v):
